@@ -280,8 +280,8 @@ inline constexpr void Conversion<Unit::Force, Unit::Force::Pound>::ToStandard(
 }
 
 template <typename NumericType>
-inline const std::map<Unit::Force, std::function<void(NumericType* values, const std::size_t size)>>
-    MapOfConversionsFromStandard<Unit::Force, NumericType>{
+inline constexpr auto MapOfConversionsFromStandard<Unit::Force, NumericType>{
+  MakeConversionTable<Unit::Force, NumericType>({
       {Unit::Force::Newton,
        Conversions<Unit::Force,                           Unit::Force::Newton>::FromStandard<NumericType>     },
       {Unit::Force::Kilonewton,
@@ -298,12 +298,12 @@ inline const std::map<Unit::Force, std::function<void(NumericType* values, const
        Conversions<Unit::Force,                           Unit::Force::Nanonewton>::FromStandard<NumericType> },
       {Unit::Force::Dyne,        Conversions<Unit::Force, Unit::Force::Dyne>::FromStandard<NumericType>       },
       {Unit::Force::Pound,       Conversions<Unit::Force, Unit::Force::Pound>::FromStandard<NumericType>      },
+})
 };
 
 template <typename NumericType>
-inline const std::map<Unit::Force,
-                      std::function<void(NumericType* const values, const std::size_t size)>>
-    MapOfConversionsToStandard<Unit::Force, NumericType>{
+inline constexpr auto MapOfConversionsToStandard<Unit::Force, NumericType>{
+  MakeConversionTable<Unit::Force, NumericType>({
       {Unit::Force::Newton,      Conversions<Unit::Force, Unit::Force::Newton>::ToStandard<NumericType>     },
       {Unit::Force::Kilonewton,
        Conversions<Unit::Force,                           Unit::Force::Kilonewton>::ToStandard<NumericType> },
@@ -319,6 +319,7 @@ inline const std::map<Unit::Force,
        Conversions<Unit::Force,                           Unit::Force::Nanonewton>::ToStandard<NumericType> },
       {Unit::Force::Dyne,        Conversions<Unit::Force, Unit::Force::Dyne>::ToStandard<NumericType>       },
       {Unit::Force::Pound,       Conversions<Unit::Force, Unit::Force::Pound>::ToStandard<NumericType>      },
+})
 };
 
 }  // namespace Internal
